@@ -5,6 +5,8 @@ import (
 	"strings"
 	"time"
 
+	"github.com/rminnich/go9p"
+
 	"verif/core"
 	"verif/sched"
 	"verif/script"
@@ -75,7 +77,10 @@ func c07Cases(tier string, seed int64) []core.Case {
 					}
 				}
 			}
-			for _, st := range []string{"sameseg", "replied", "unknown", "multi", "flushflush", "gated"} {
+			for _, st := range []string{"sameseg", "replied", "unknown", "multi", "flushflush", "gated", "saved"} {
+				if st == "saved" && (k == "flush" || k == "auth") {
+					continue
+				}
 				n := 1
 				if st == "sameseg" {
 					n = reps
@@ -343,6 +348,36 @@ func c07Run(seed int64, sc c07scn, res *core.Result) {
 		}
 		preReplies = append(preReplies, r0)
 		_ = c.Send(flush)
+	case "saved":
+		// the implementation took the request and returned without answering it (it answers later, from another
+		// goroutine): nobody but the implementation can finish it, so a Tflush is only answered after its reply (this
+		// implementation's FlushOp, if any, does not cancel requests it is not inside of)
+		plan.NoAnswer = true
+		seqS := s.Log.Seq()
+		_ = c.Send(target)
+		parkedOK := waitFor(W, func() bool {
+			for _, ev := range s.Log.Snapshot(seqS) {
+				if ev.Kind == "exit" && ev.Conn == c.ID && ev.Tag == target.Tag && ev.Info == "noanswer" {
+					return true
+				}
+			}
+			return false
+		})
+		if !parkedOK {
+			feasible = false
+		}
+		_ = c.Send(flush)
+		if r, err := c.WaitTag(flush.Tag, 60*time.Millisecond); err == nil {
+			preReplies = append(preReplies, r)
+			if parkedOK {
+				fail("rflush-before-deferred-answer", "the Rflush of a request the implementation had taken over (its callback returned, the answer comes later) was sent before that answer: the request was not cancelled, the implementation still carries it out", nil)
+			}
+		}
+		if req := s.Ops.Pending(c.ID, target.Tag); req != nil {
+			req.RespondError(&go9p.Error{Err: "deferred answer", Errornum: 5})
+		} else if parkedOK {
+			feasible = false
+		}
 	case "unknown":
 		// the flush names a tag that was never used, while the target is held in the implementation
 		flush.Oldtag = 0x7777
